@@ -515,6 +515,18 @@ func (h *c17h) monitorReverseComplete(post *c17snap) {
 	}
 }
 
+// ownFormat: the address text carries the bech32 prefix of the working chain
+func (h *c17h) ownFormat(addr string, wc int) bool {
+	hrp := atoi(strings.Split(addr, ":")[0])
+	if wc == 0 {
+		return hrp == 0
+	}
+	if r, ok := h.f.App.RollappKeeper.GetRollapp(h.ctx(), c17Chain(wc)); ok && r.GenesisInfo.Bech32Prefix != "" {
+		return c17Hrp(hrp) == r.GenesisInfo.Bech32Prefix
+	}
+	return false
+}
+
 // monitorQuery: every candidate of a reverse resolution must resolve forward to the queried address
 func (h *c17h) monitorQuery(f []string, obs, line string) {
 	if f[0] != "rev" || obs == "-" || obs == "err" {
@@ -537,8 +549,11 @@ func (h *c17h) monitorQuery(f []string, obs, line string) {
 		kind := "forward-gives-another-address"
 		if got == "-" {
 			kind = "forward-gives-nothing"
-		} else if strings.Split(got, ":")[1] == strings.Split(f[1], ":")[1] {
-			kind = "forward-gives-same-account-other-prefix"
+		} else if strings.Split(got, ":")[1] == strings.Split(f[1], ":")[1] && !h.ownFormat(f[1], atoi(f[2])) {
+			// the queried text is not an address in the working chain's own format (other bech32
+			// prefix): the fallback lookup goes by account bytes, the candidate names the same account
+			h.r.Hit("rev-foreign-prefix-same-account")
+			continue
 		}
 		h.violate("C17/resolve_agree/reverse-candidate-"+kind,
 			fmt.Sprintf("reverse(%s on c%s) lists %s, which resolves to %s", f[1], f[2], tok, got),
